@@ -660,8 +660,56 @@ def run_histories(rep, ctx, which, exe, model, hists, tag):
     return nev
 
 
+def forwarder_stage(rep, ctx):
+    """replies of the local DNS server on the forwarding socket (-b): tunnel_bind() reads the id from the reply.  Pairs of
+    histories with the same forwarded queries (so the same forwarding state) that differ only in WHICH full reply precedes a
+    short one (0, 1 bytes; 2 bytes = an id nobody asked with): the short reply must have the same effect in both -- it is read
+    from its own bytes only.  Real forward_query / tunnel_bind of iodined.c (harness/h_c20.c)."""
+    if 'fwd' not in ctx.exe:
+        return
+    import c20, struct
+    rng = vlib.rng_for(rep.seed, 'c12-forwarder')
+    n = 120 if rep.tier == 'quick' else 1200
+    lines, pairs = [], []
+    for it in range(n):
+        top = b't.example'
+        hi = rng.randrange(1, 256)
+        lo1, lo2 = rng.sample(range(256), 2)
+        ids = [(hi << 8) | lo1, (hi << 8) | lo2]
+        qs = []
+        for j, qid in enumerate(ids):
+            name = b'www%d.other.org' % j
+            pkt = c20.build_query(qid, name, 1, rng, edns=0, flags=0x0100)
+            qs.append('Q,%d,%d,%s,1,%d,1,%s' % (3 + j, 4000 + j, pkt.hex(), qid, name.hex()))
+        def full(rid):
+            return struct.pack('>HHHHHH', rid, 0x8180, 1, 0, 0, 0) + b'\x03www\x05other\x03org\x00' + struct.pack('>HH', 1, 1)
+        short = rng.choice([bytes([hi]), b'', bytes([hi]), struct.pack('>H', (hi << 8) | lo1)[:1]])
+        for first in ids:
+            steps = qs + ['R,%s' % full(first).hex(), 'R,%s' % (short.hex() if short else '-')]
+            lines.append('NET 5353 %s %s' % (top.hex(), ';'.join(steps)))
+        pairs.append((len(lines) - 2, len(lines) - 1, short))
+    rc, out, err = vlib.parallel_run_cases(ctx.exe['fwd'], lines, ctx.work, 'fwd-residue')
+    if rc != 0:
+        ctx.broken.append(('impl-crash', 'forwarder harness exited with %d: %s' % (rc, err[-300:])))
+    okc = 0
+    for a, b, short in pairs:
+        ra, rb = out[a].split(';'), out[b].split(';')
+        if len(ra) < 4 or len(rb) < 4 or ra[-1] != rb[-1]:
+            rep.add_violation('forwarder:residue-dependent', 'tunnel_bind(): a %d-byte reply on the forwarding socket has a different effect depending on which '
+                              'full reply came before it (same forwarded queries in both histories): %r vs %r' % (len(short), ra[-1][:120], rb[-1][:120]),
+                              dict(kind='history', driver='fwd', case=lines[a], case2=lines[b], observed=out[a][-300:], expected=out[b][-300:]))
+            break
+        okc += 1
+    rep.cov['forwarder_pairs'] = dict(pairs=len(pairs), same_effect=okc)
+    rep.cov['evaluations'] = rep.cov.get('evaluations', 0) + 2 * len(pairs)
+    rep.cov['rule'] += ('. Forwarder stage: %d pairs of histories through the real forward_query / tunnel_bind: two forwarded queries whose ids '
+                        'share the high byte, then a full reply to one or to the other, then a reply of 0 or 1 bytes: its effect must not '
+                        'depend on which full reply preceded it' % len(pairs))
+
+
 def check(rep):
-    ctx = vlib.prepare(rep, harnesses={'wire': WIRE, 'c12srv': SRV12, 'c12cli': CLI12},
+    import c20
+    ctx = vlib.prepare(rep, harnesses={'wire': WIRE, 'c12srv': SRV12, 'c12cli': CLI12, 'fwd': c20.harness_spec()['srv']},
                        sanitize=(rep.tier == 'thorough'), model='WIRE')
     g = Gen(rep.seed, rep.tier)
     # corpus first
@@ -785,6 +833,7 @@ def check(rep):
         evaluations += nev * len(HIST_RESIDUES)
     rep.cov['history_distribution'] = hstats
     rep.cov['evaluations'] = evaluations
+    forwarder_stage(rep, ctx)
     if not rep.violations:
         ctx.report_broken()
     return rep
